@@ -26,6 +26,15 @@ pub const CT: usize = 1088;
 #[cfg(not(feature = "cfg-alt"))]
 pub const CT: usize = 768;
 
+/// when KHEX is set, every dumped object is also appended as "KIND hex" to the file $KHEX.<pid>
+pub fn logx(kind: &str, b: &[u8]) {
+    use std::io::Write;
+    if let Ok(p) = std::env::var("KHEX") {
+        let mut f = std::fs::OpenOptions::new().create(true).append(true).open(format!("{}.{}", p, std::process::id())).unwrap();
+        writeln!(f, "{} {}", kind, hex(b)).unwrap();
+    }
+}
+
 pub struct Rd<'a> { pub b: &'a [u8], pub p: usize }
 impl<'a> Rd<'a> {
     pub fn new(b: &'a [u8]) -> Self { Rd { b, p: 0 } }
@@ -65,6 +74,7 @@ pub fn dump_structure(r: &mut Rd) -> String {
 
 pub fn dump_msk(m: &MasterSecretKey) -> String {
     let b = m.serialize().unwrap();
+    logx("MSK", &b);
     let lenok = b.len() == m.length();
     let mut r = Rd::new(&b);
     r.take(SK);
@@ -87,6 +97,7 @@ pub fn dump_msk(m: &MasterSecretKey) -> String {
 
 pub fn dump_mpk(m: &MasterPublicKey) -> String {
     let b = m.serialize().unwrap();
+    logx("MPK", &b);
     let lenok = b.len() == m.length();
     let mut r = Rd::new(&b);
     let nt = r.leb(); r.take(nt * PT);
@@ -102,6 +113,7 @@ pub fn dump_mpk(m: &MasterPublicKey) -> String {
 
 pub fn dump_usk(u: &UserSecretKey) -> String {
     let b = u.serialize().unwrap();
+    logx("USK", &b);
     let lenok = b.len() == u.length();
     let mut r = Rd::new(&b);
     let n = r.leb(); let id = if n == 0 { "i-".to_string() } else { t8("i", &r.b[r.p..]) }; r.take(n * SK);
@@ -119,6 +131,7 @@ pub fn dump_usk(u: &UserSecretKey) -> String {
 
 pub fn dump_enc(e: &XEnc) -> String {
     let b = e.serialize().unwrap();
+    logx("ENC", &b);
     let lenok = b.len() == e.length();
     let mut r = Rd::new(&b);
     r.take(16); let n = r.leb(); r.take(n * PT); let h = r.leb(); let m = r.leb();
